@@ -171,6 +171,46 @@ def shapes_for(k):
     return [(T, k // T) for T in range(1, k + 1) if k % T == 0]
 
 
+def huge_sparse(ctx, rng, seed=None):
+    """A long recording with many narrow bins, sparse output: time index x number of bins exceeds 2**31 (a dense array of that
+    shape would need > 16 GB, which is what return_sparse is for). Judged on per-bin totals, the grand total and sampled cells."""
+    from emd import spectra as SP
+    seed = int(rng.integers(1 << 30)) if seed is None else seed
+    r = np.random.default_rng(seed)
+    T, M, nb = int(r.integers(720000, 760000)), 2, int(r.integers(3000, 3200))
+    edges = np.linspace(0.0, 120.0, nb + 1)
+    infr = r.uniform(-3, 125, (T, M))
+    inam = r.uniform(.1, 3, (T, M))
+    mode = gens.pick(r, ['energy', 'amplitude'])
+    case = {'kind': 'huge-sparse', 'seed': seed}
+    ctx.case(digest('huge-sparse', seed), True)
+    ctx.count('huge_sparse_spectra')
+    try:
+        sp = SP.hilberthuang(infr, inam, edges, mode=mode, return_sparse=True)
+    except Exception as e:
+        ctx.violation('exception:%s:huge-sparse' % type(e).__name__, 'hilberthuang(return_sparse=True) on %d samples x %d bins raised %s: %s'
+                      % (T, nb, type(e).__name__, str(e)[:100]), case)
+        return
+    a = inam ** 2 if mode == 'energy' else inam
+    b = np.floor((infr - edges[0]) / (edges[1] - edges[0])).astype(np.int64)
+    b = np.searchsorted(edges, infr, side='right') - 1          # exact half-open bins
+    ok = (infr >= edges[0]) & (infr < edges[-1])
+    per_bin = np.bincount(b[ok], weights=a[ok], minlength=nb)[:nb]
+    got = np.asarray(sp.sum(axis=1)).reshape(-1)
+    if sp.shape != (nb, T) or np.abs(got - per_bin).max() > 1e-9 * per_bin.max():
+        ctx.violation('hht-sparse:huge', 'sparse spectrum of %d samples x %d bins: shape %s, per-bin totals differ from the per-sample histogram by up to %.3g'
+                      % (T, nb, sp.shape, np.abs(got - per_bin).max() if sp.shape == (nb, T) else np.nan), case)
+        return
+    csr = sp.tocsr()
+    for t in [int(v) for v in r.integers(T - 20000, T, 40)] + [T - 1, 0]:
+        for m in range(M):
+            if ok[t, m]:
+                want = sum(a[t, mm] for mm in range(M) if ok[t, mm] and b[t, mm] == b[t, m])
+                if abs(csr[b[t, m], t] - want) > 1e-9 * want:
+                    ctx.violation('hht-sparse:huge', 'sparse spectrum: cell (bin %d, time %d) holds %.6g, the samples in it sum to %.6g' % (b[t, m], t, csr[b[t, m], t], want), case)
+                    return
+
+
 def thread_probe(ctx, rng):
     """Several threads of one interpreter computing spectra of same-shaped, different recordings at the same time: each must get
     what it gets when running alone (the interpreter is made to switch threads every 10 microseconds)."""
@@ -226,6 +266,8 @@ def run_shard(ctx):
     rng = ctx.rng
     if ctx.shard % 2 == 0:
         thread_probe(ctx, rng)
+    if ctx.shard % 8 == 5:
+        huge_sparse(ctx, rng)
     # random part
     n = NRANDOM[ctx.tier] // ctx.nshards
     for i in range(n):
@@ -335,6 +377,8 @@ def finalize(agg, tier):
 
 
 def replay(ctx, case):
+    if case['kind'] == 'huge-sparse':
+        return huge_sparse(ctx, None, seed=case['seed'])
     if case['kind'] == 'threads':
         for _ in range(5):
             thread_probe(ctx, np.random.default_rng(case['seeds'][0]))
